@@ -7,7 +7,8 @@
    (c01_ok/c15_ok for StrictlyAtOnce, c06alo_ok for AtLeastOnce) + a metamorphic run
    (same history with and without its restarts: same delivered stream, same final counts). *)
 From W Require Import gen.Consts model.Base model.Engine model.EngineCfg spec.Queue
-  proofs.EngineWF proofs.EngineInv proofs.EngineW proofs.EngineMain proofs.EngineRec proofs.EngineDisk props.C01.
+  proofs.EngineWF proofs.EngineInv proofs.EngineW proofs.EngineMain proofs.EngineRec proofs.EngineDisk proofs.EnginePos proofs.EngineP3
+  proofs.EngineNorm proofs.EngineRestart proofs.EngineReopen proofs.EngineC06 props.C01.
 From Coq Require Import Lia.
 
 (* restarts anywhere in an admissible history; StrictlyAtOnce: the trace with the restart
@@ -60,6 +61,111 @@ Example c06_witness_sealed_position_after_empty_block :
   = [ROk; ROk; ROk; REntry (out_of (e 0 5000)); ROk; RNum 2; REntry (out_of (e 1 2000)); REntry (out_of (e 2 2000)); RNone].
 Proof. vm_compute. reflexivity. Qed.
 
+(* ------------------------------------------------------------------ histories WITH restarts *)
+(* The known classes, as booleans of the model state at the moment of a restart:
+     id_drift c s   (model/Engine.v)      a restart would renumber some written block
+     stale_tail s   (proofs/EnginePos.v)  a persisted tail position names a block that holds no
+                                          entries (provisional position written by an empty poll on
+                                          an empty writer block): a restart does not rebuild that
+                                          block, read_next then restarts from the first block
+                                          (everything delivered again), batch_read parks behind
+                                          the last block (entries lost), the count is rebuilt as
+                                          if nothing had been consumed.
+   restart_known c s = id_drift c s || stale_tail s;  outside_known v s ops evaluates it at every
+   OReopen of the run.  C06_full restricted to such histories: *)
+Theorem c06_full_outside_known : forall (c : Cfg) (be : backend) (ops : list op),
+  cfg_ok c -> Forall (op_ok_r c) ops ->
+  N.of_nat (length (offered_all ops)) <= u64_max -> sum_len (offered_all ops) <= u64_max ->
+  outside_known (env_of c Strict be) init ops = true ->
+  c01_ok (trace (env_of c Strict be) init ops) = true /\ c15_ok (trace (env_of c Strict be) init ops) = true.
+Proof. intros c be ops Hc _ HB HBb Ho. exact (restart_from_init c be ops Hc Ho HB HBb). Qed.
+
+(* the invariant behind it, along every such history (any number of restarts): per topic, with the
+   pending hydration carried out in either read path's flavour [x], the per-topic invariant TInv,
+   the POSITION INVARIANT P3 (the persisted position denotes exactly the unread entries, or is a
+   provisional / dead tail position) and agreement with the queue ledger; plus the disk invariants *)
+Theorem c06_invariant_with_restarts : forall (c : Cfg) (be : backend) (ops : list op),
+  cfg_ok c -> N.of_nat (length (offered_all ops)) <= u64_max -> sum_len (offered_all ops) <= u64_max ->
+  outside_known (env_of c Strict be) init ops = true ->
+  exists B' Bb', G c (exec (env_of c Strict be) init ops) (ledger_run [] (trace (env_of c Strict be) init ops)) B' Bb'.
+Proof. exact G_from_init. Qed.
+
+(* a restart at the end of such a history: per topic the stream, the unread entries (whichever
+   read path hydrates first, [x]/[y]) and the reported count are what they were *)
+Theorem c06_restart_preserves_cursor : forall (c : Cfg) (be : backend) (ops : list op), cfg_ok c ->
+  outside_known (env_of c Strict be) init (ops ++ [OReopen]) = true ->
+  N.of_nat (length (offered_all ops)) <= u64_max -> sum_len (offered_all ops) <= u64_max ->
+  let s := exec (env_of c Strict be) init ops in
+  forall t x y,
+    stream (get_ts (reopen c s) t) = stream (get_ts s t) /\
+    unread c (nrm x (get_ts (reopen c s) t)) = unread c (nrm y (get_ts s t)) /\
+    cnt (get_ts (reopen c s) t) = cnt (get_ts s t) /\
+    cnt (get_ts (reopen c s) t) = N.of_nat (length (unread c (nrm x (get_ts (reopen c s) t)))).
+Proof. exact restart_preserves_cursor. Qed.
+
+(* C06_full itself is FALSE for the model (and the code): two independent mechanisms *)
+Definition t4 : topic := {| t_id := 4; t_nlen := 2 |}.
+Definition t5 : topic := {| t_id := 5; t_nlen := 2 |}.
+Definition t6 : topic := {| t_id := 6; t_nlen := 2 |}.
+Definition t7 : topic := {| t_id := 7; t_nlen := 2 |}.
+Definition t8 : topic := {| t_id := 8; t_nlen := 2 |}.
+(* corpus/C06/iddrift.case *)
+Definition drift_ops : list op :=
+  [OAppend t1 (e 0 10); OAppend t2 (e 1 10); OAppend t3 (e 2 10); OAppend t4 (e 3 10); OAppend t5 (e 4 10);
+   OAppend t6 (e 5 10); OAppend t7 (e 6 10); OAppend t8 (e 7 5000); OAppend t8 (e 8 100); ORead t8 true; OCount t8].
+(* corpus/C06/staletail.case: both entries consumed; after a restart a rejected append creates an
+   empty writer block, an empty poll persists a provisional position on it; next restart *)
+Definition stale_ops : list op :=
+  [OAppend t1 (e 0 10); OAppend t1 (e 1 10); ORead t1 true; ORead t1 true; OReopen; OAppend t1 (e 2 20000); ORead t1 true].
+
+Theorem c06_refuted_id_drift :
+  id_drift small_cfg (exec (env_of small_cfg Strict Fd) init drift_ops) = true /\
+  stale_tail (exec (env_of small_cfg Strict Fd) init drift_ops) = false /\
+  map snd (trace (env_of small_cfg Strict Fd) init (drift_ops ++ [OReopen; OCount t8; ORead t8 true]))
+  = [ROk; ROk; ROk; ROk; ROk; ROk; ROk; ROk; ROk; REntry (out_of (e 7 5000)); RNum 1; ROk; RNum 2; REntry (out_of (e 7 5000))] /\
+  c01_ok (trace (env_of small_cfg Strict Fd) init (drift_ops ++ [OReopen; OCount t8; ORead t8 true])) = false /\
+  c15_ok (trace (env_of small_cfg Strict Fd) init (drift_ops ++ [OReopen; OCount t8; ORead t8 true])) = false.
+Proof. vm_compute. repeat split; reflexivity. Qed.
+
+Theorem c06_refuted_stale_tail :
+  id_drift small_cfg (exec (env_of small_cfg Strict Fd) init stale_ops) = false /\
+  stale_tail (exec (env_of small_cfg Strict Fd) init stale_ops) = true /\
+  map snd (trace (env_of small_cfg Strict Fd) init (stale_ops ++ [OReopen; OCount t1; ORead t1 true; ORead t1 true; ORead t1 true]))
+  = [ROk; ROk; REntry (out_of (e 0 10)); REntry (out_of (e 1 10)); ROk; RErr EInvalidInput; RNone; ROk; RNum 2;
+     REntry (out_of (e 0 10)); REntry (out_of (e 1 10)); RNone] /\
+  c01_ok (trace (env_of small_cfg Strict Fd) init (stale_ops ++ [OReopen; OCount t1; ORead t1 true])) = false /\
+  c15_ok (trace (env_of small_cfg Strict Fd) init (stale_ops ++ [OReopen; OCount t1; ORead t1 true])) = false.
+Proof. vm_compute. repeat split; reflexivity. Qed.
+
+(* the batch-read flavour of the same mechanism LOSES an entry: rejected first append, empty poll,
+   a large append retires the empty block, restart, batch read returns nothing while one entry is unread *)
+Example c06_stale_tail_batch_read_loses :
+  let ops := [OAppend t1 (e 0 20000); ORead t1 true; OAppend t1 (e 1 5000)] in
+  stale_tail (exec (env_of small_cfg Strict Fd) init ops) = true /\
+  map snd (trace (env_of small_cfg Strict Fd) init (ops ++ [OReopen; OCount t1; OBatchRead t1 100000 true None; ORead t1 true; OCount t1]))
+  = [RErr EInvalidInput; RNone; ROk; ROk; RNum 1; REntries []; RNone; RNum 1].
+Proof. vm_compute. split; reflexivity. Qed.
+
+Theorem c06_full_refuted : ~ C06_full.
+Proof.
+  intros H. specialize (H small_cfg Fd (stale_ops ++ [OReopen; OCount t1; ORead t1 true]) small_cfg_ok).
+  assert (Hok : Forall (op_ok_r small_cfg) (stale_ops ++ [OReopen; OCount t1; ORead t1 true])) by (repeat constructor).
+  destruct (H Hok) as (H1 & _). destruct c06_refuted_stale_tail as (_ & _ & _ & H2 & _). congruence.
+Qed.
+
+(* non-vacuity of the hypothesis: histories with two restarts each that stay outside the known classes *)
+Example c06_outside_known_witness :
+  outside_known (env_of small_cfg Strict Mmap) init
+     [OBatch t1 []; OAppend t2 (e 0 100); OAppend t3 (e 2 5000); OAppend t3 (e 3 10); OAppend t2 (e 4 3000);
+      OReopen; OCount t2; OCount t3; OBatchRead t2 100000 true None; OBatchRead t3 100000 true None; OReopen;
+      ORead t2 true; OCount t3] = true /\
+  outside_known (env_of small_cfg Strict Fd) init
+     [OAppend t1 (e 0 5000); OAppend t1 (e 1 2000); OAppend t1 (e 2 2000); ORead t1 true; OReopen; OCount t1;
+      ORead t1 true; OAppend t1 (e 3 7); OReopen; ORead t1 true; ORead t1 true; ORead t1 true] = true /\
+  outside_known (env_of small_cfg Strict Fd) init (drift_ops ++ [OReopen]) = false /\
+  outside_known (env_of small_cfg Strict Fd) init (stale_ops ++ [OReopen]) = false.
+Proof. vm_compute. repeat split; reflexivity. Qed.
+
 Check c06_recovery_complete_partial : forall c, 0 < c_hdr c -> 0 < c_block c -> forall nfiles f disk next_id acc,
   Forall (dwf c) disk ->
   let '(acc', id') := scan_files c nfiles f disk next_id acc in
@@ -71,3 +177,28 @@ Check c06_restart_rebuilds_streams_partial : forall (c : Cfg) (m : mode) (be : b
   N.of_nat (length (offered_all ops)) <= u64_max -> sum_len (offered_all ops) <= u64_max ->
   forall t, stream (get_ts (reopen c (exec (env_of c m be) init ops)) t) = stream (get_ts (exec (env_of c m be) init ops) t).
 Print Assumptions c06_restart_rebuilds_streams_partial.
+Check c06_full_outside_known : forall (c : Cfg) (be : backend) (ops : list op),
+  cfg_ok c -> Forall (op_ok_r c) ops ->
+  N.of_nat (length (offered_all ops)) <= u64_max -> sum_len (offered_all ops) <= u64_max ->
+  outside_known (env_of c Strict be) init ops = true ->
+  c01_ok (trace (env_of c Strict be) init ops) = true /\ c15_ok (trace (env_of c Strict be) init ops) = true.
+Print Assumptions c06_full_outside_known.
+Check c06_invariant_with_restarts : forall (c : Cfg) (be : backend) (ops : list op),
+  cfg_ok c -> N.of_nat (length (offered_all ops)) <= u64_max -> sum_len (offered_all ops) <= u64_max ->
+  outside_known (env_of c Strict be) init ops = true ->
+  exists B' Bb', G c (exec (env_of c Strict be) init ops) (ledger_run [] (trace (env_of c Strict be) init ops)) B' Bb'.
+Print Assumptions c06_invariant_with_restarts.
+Check c06_restart_preserves_cursor : forall (c : Cfg) (be : backend) (ops : list op), cfg_ok c ->
+  outside_known (env_of c Strict be) init (ops ++ [OReopen]) = true ->
+  N.of_nat (length (offered_all ops)) <= u64_max -> sum_len (offered_all ops) <= u64_max ->
+  let s := exec (env_of c Strict be) init ops in
+  forall t x y,
+    stream (get_ts (reopen c s) t) = stream (get_ts s t) /\
+    unread c (nrm x (get_ts (reopen c s) t)) = unread c (nrm y (get_ts s t)) /\
+    cnt (get_ts (reopen c s) t) = cnt (get_ts s t) /\
+    cnt (get_ts (reopen c s) t) = N.of_nat (length (unread c (nrm x (get_ts (reopen c s) t)))).
+Print Assumptions c06_restart_preserves_cursor.
+Check c06_full_refuted : ~ C06_full.
+Print Assumptions c06_full_refuted.
+Print Assumptions c06_refuted_id_drift.
+Print Assumptions c06_refuted_stale_tail.
